@@ -38,8 +38,8 @@ type Rule struct {
 	ID       string
 	Prop     string
 	Desc     string
-	MinSites int                    // minimum number of obligations the rule must produce where it applies
-	Applies  func(cfg Config) bool  // nil = every config
+	MinSites int                   // minimum number of obligations the rule must produce where it applies
+	Applies  func(cfg Config) bool // nil = every config
 	Run      func(c *Ctx)
 }
 
